@@ -79,6 +79,32 @@ CHECKS = {
        "KF-C09-2 (handled definition unusable in later branches).",
   tech="TLA+ definite-assignment analysis (MambaScope) run by TLC on each program as oracle for recorded verdicts",
   ref="DESIGN.md 9/C09"),
+ "C01": dict(
+  text="TLC enumerates the value probes of spec/MC_C01.tla under every context nesting and checks (R1) that each program is inside "
+       "the reference semantics of spec/MambaDynamic.tla (a big-step evaluator of the core language in TLA+); each program is "
+       "rendered, transpiled with annotate off and on and executed by CPython; TLC (spec/RunJudge.tla) evaluates the reference "
+       "semantics on the program and requires the same printed lines and the same ending (normal / class of the uncaught "
+       "exception) in both modes.",
+  note="Trusted: lib/render.py, py/runpy.py, CPython 3.11 as executor of the output, the TLA+ reference semantics of the source "
+       "(validated by R1 and by agreeing with the implementation on ~2k programs). Value-level core without float arithmetic. "
+       "Open known finding KF-C01-1.",
+  tech="TLA+ reference semantics evaluated by TLC as oracle for executions of the emitted Python (both annotate modes)",
+  ref="DESIGN.md 9/C01"),
+ "C04": dict(
+  text="Every program of the TLC-enumerated families (value probes of C01, the single-point-edit grids of C05-C09 and the "
+       "operand / receiver edit grid of spec/MC_C04.tla) that the real checker accepts is executed by CPython in both annotate "
+       "modes; TLC (spec/RunJudge.tla, clause C04) rejects any execution that ends in TypeError / AttributeError / NameError / "
+       "UnboundLocalError. The reference semantics' own goes-wrong status is compared as drift.",
+  note="Trusted: lib/render.py, py/runpy.py; only CPython's verdict is decisive. Open known findings KF-C04-1..4.",
+  tech="TLC-enumerated type-changing edit grids; accepted programs executed; TLC judges the recorded executions",
+  ref="DESIGN.md 9/C04"),
+ "C11": dict(
+  text="For every program of the TLC-enumerated families, every repository sample and seeded token-level mutants, both annotate "
+       "modes are transpiled; py/erase.py erases annotations (and typing imports that become unused) and normalises the Python "
+       "AST; TLC (spec/AnnotateJudge.tla) requires equal verdicts and equal erased programs.",
+  note="Trusted: py/erase.py's definition of 'annotation'.",
+  tech="differential check of both annotate modes over TLC-enumerated programs + corpus, judged by TLC",
+  ref="DESIGN.md 9/C11"),
 }
 
 PENDING_REASON = "check not built yet in this snapshot (work in progress; see DESIGN.md section 13)"
